@@ -278,6 +278,27 @@ def prune_unreachable_objects(
     return pruned, bytes_freed
 
 
+def _index_objects(repo: "Repo") -> set[ObjectID]:
+    """Objects named by the index: staged content that may not be committed yet."""
+    from dulwich.errors import NoIndexPresent
+    from dulwich.index import ConflictedIndexEntry
+
+    try:
+        if not repo.has_index():
+            return set()
+        index = repo.open_index()
+    except (NoIndexPresent, OSError):
+        return set()
+    shas: set[ObjectID] = set()
+    for _path, entry in index.items():
+        if isinstance(entry, ConflictedIndexEntry):
+            stages = [entry.ancestor, entry.this, entry.other]
+        else:
+            stages = [entry]
+        shas.update(stage.sha for stage in stages if stage is not None)
+    return shas
+
+
 def garbage_collect(
     repo: "Repo",
     auto: bool = False,
@@ -318,6 +339,8 @@ def garbage_collect(
         unreachable = find_unreachable_objects(
             object_store, refs_container, progress=progress
         )
+        # Staged but not yet committed content is in use, whatever its age
+        unreachable -= _index_objects(repo)
 
         # Apply grace period check
         for sha in unreachable:
